@@ -6,7 +6,7 @@ use std::collections::BTreeSet;
 use std::rc::Rc;
 
 use memterm::modes::DECSCNM;
-use memterm::screen::{CharOpts, Charset, Savepoint, Screen};
+use memterm::screen::{CharOpts, Charset, Screen};
 
 use crate::prng::splitmix;
 
@@ -354,23 +354,31 @@ pub fn cell_str(c: &Cell) -> String {
 /// Deep copy of a Screen built from its public fields (Screen is not Clone). Used so that
 /// oracles can call display() or twin operations without perturbing the run.
 pub fn clone_screen(s: &Screen) -> Screen {
-    // Built with Screen::new + field assignment rather than a struct literal, so that a
-    // private field added to Screen by a later change does not break the harness build.
+    // Built with Screen::new + field assignment (no struct literals for Screen or Savepoint), so
+    // that a private field added by a later change does not break the harness build. The
+    // savepoint stack is rebuilt through save_cursor() from states equal to the saved ones.
+    use memterm::modes::{DECAWM, DECOM};
+    use memterm::parser_listener::ParserListener;
     let mut c = Screen::new(s.columns, s.lines);
-    c.savepoints = s
-        .savepoints
-        .iter()
-        .map(|p| Savepoint {
-            cursor: p.cursor.clone(),
-            g0_charset: p.g0_charset,
-            g1_charset: p.g1_charset,
-            charset: p.charset,
-            origin: p.origin,
-            wrap: p.wrap,
-        })
-        .collect();
     c.columns = s.columns;
     c.lines = s.lines;
+    for p in &s.savepoints {
+        c.cursor = p.cursor.clone();
+        c.g0_charset = p.g0_charset;
+        c.g1_charset = p.g1_charset;
+        c.charset = p.charset;
+        if p.origin {
+            c.mode.insert(DECOM);
+        } else {
+            c.mode.remove(&DECOM);
+        }
+        if p.wrap {
+            c.mode.insert(DECAWM);
+        } else {
+            c.mode.remove(&DECAWM);
+        }
+        c.save_cursor();
+    }
     c.dirty = s.dirty.clone();
     c.margins = s.margins;
     c.buffer = s.buffer.clone();
